@@ -49,6 +49,8 @@ type Case struct {
 	Code    uint32 `json:"code,omitempty"`
 	Procs   int    `json:"procs"`             // GOMAXPROCS during the case
 	CtlCtx  string `json:"ctl_ctx,omitempty"` // control group: "background" | "cancel" | "timeout"
+	// Overlap: further calls on the same instance, each on its own goroutine and api.Function
+	Overlap *Overlap `json:"overlap,omitempty"`
 }
 
 const (
@@ -81,6 +83,20 @@ func (c *Case) wantCode() uint32 {
 		return c.Code
 	}
 	return 0
+}
+
+// Overlap describes calls that overlap with the non-terminating call without being nested in it.
+// Every entry names how the call's context relates to the context of the main call: "same" (the
+// same context value), "value" (a value context derived from it: same Done channel), "child" (a
+// context.WithCancel derived from it).
+type Overlap struct {
+	// Early: terminating calls that start BEFORE the non-terminating one(s), park in a host
+	// function, and return normally after those are in flight - still before the trigger.
+	Early []string `json:"early,omitempty"`
+	// Late: terminating calls made and finished while the non-terminating one(s) are in flight.
+	Late []string `json:"late,omitempty"`
+	// Twin: a second non-terminating call (same export, own goroutine and api.Function).
+	Twin string `json:"twin,omitempty"`
 }
 
 // Result is what one execution observed.
@@ -119,15 +135,27 @@ func armWatchdog(c *Case) func() {
 // ---- execution ----
 
 type env struct {
-	started   chan struct{}
+	started   chan struct{} // closed when `need` heartbeats were seen
+	need      int32
+	seen      atomic.Int32
 	startOnce sync.Once
 	hbTime    atomic.Int64
+	parked    chan struct{} // one token per call parked in gate
+	release   chan struct{} // closed to let the parked calls go
+}
+
+func (e *env) gate() {
+	e.parked <- struct{}{}
+	<-e.release
 }
 
 // onHeartbeat is set by the helper process of known_test.go.
 var onHeartbeat func()
 
 func (e *env) heartbeat() {
+	if e.seen.Add(1) < e.need {
+		return
+	}
 	e.startOnce.Do(func() {
 		e.hbTime.Store(time.Now().UnixNano())
 		close(e.started)
@@ -148,10 +176,18 @@ func runCase(c *Case) (res Result) {
 	bg := context.Background()
 	rt := wazero.NewRuntimeWithConfig(bg, wz.Config(c.Engine).WithCloseOnContextDone(true))
 	defer rt.Close(bg)
-	ev := &env{started: make(chan struct{})}
+	ev := &env{started: make(chan struct{}), need: 1, parked: make(chan struct{}, 8), release: make(chan struct{})}
+	ov := c.Overlap
+	if ov == nil || c.Cause == "none" || c.Shape.Entry == "start" || c.Shape.Entry == "_start" {
+		ov = &Overlap{}
+	}
+	if ov.Twin != "" {
+		ev.need = 2
+	}
 	_, err := rt.NewHostModuleBuilder("env").
 		NewFunctionBuilder().WithFunc(func(ctx context.Context) { ev.heartbeat() }).Export("hb").
 		NewFunctionBuilder().WithFunc(func(ctx context.Context) {}).Export("nop").
+		NewFunctionBuilder().WithFunc(func(ctx context.Context) { ev.gate() }).Export("gate").
 		NewFunctionBuilder().WithFunc(func(ctx context.Context) { time.Sleep(time.Duration(c.Shape.SleepMs) * time.Millisecond) }).Export("nap").
 		NewFunctionBuilder().WithFunc(func(ctx context.Context, mod api.Module) uint32 {
 		// guest -> host -> guest: a fresh function object, the context passed through
@@ -221,7 +257,9 @@ func runCase(c *Case) (res Result) {
 		}
 	}
 
-	// the trigger: armed by the heartbeat, fired after the delay
+	// the trigger: armed by the heartbeat (and, with overlapping calls, once the terminating ones
+	// have returned), fired after the delay
+	armed := make(chan struct{})
 	finished := make(chan struct{})
 	triggerDone := make(chan struct{})
 	var firedAt atomic.Int64
@@ -231,7 +269,7 @@ func runCase(c *Case) (res Result) {
 			return
 		}
 		select {
-		case <-ev.started:
+		case <-armed:
 		case <-finished:
 			return
 		}
@@ -263,6 +301,88 @@ func runCase(c *Case) (res Result) {
 		ctx = context.WithValue(ctx, ctxKey{}, 1)
 	}
 
+	// contexts of the overlapping calls
+	var childCancels []context.CancelFunc
+	defer func() {
+		for _, cc := range childCancels {
+			cc()
+		}
+	}()
+	related := func(rel string) context.Context {
+		switch rel {
+		case "value":
+			return context.WithValue(ctx, ctxKey{}, 2)
+		case "child":
+			cctx, cc := context.WithCancel(ctx)
+			childCancels = append(childCancels, cc)
+			return cctx
+		}
+		return ctx
+	}
+	type sideResult struct {
+		what string
+		res  []uint64
+		err  error
+		at   time.Time
+	}
+	sideCall := func(what, export string, cctx context.Context, ch chan<- sideResult) {
+		var r sideResult
+		r.what = what
+		defer func() {
+			if p := recover(); p != nil {
+				r.err = fmt.Errorf("panic escaped the call: %v", p)
+			}
+			r.at = time.Now()
+			ch <- r
+		}()
+		r.res, r.err = mod.ExportedFunction(export).Call(cctx)
+	}
+	earlyCh := make(chan sideResult, len(ov.Early))
+	twinCh := make(chan sideResult, 1)
+	var overlapMsg atomic.Value // string: what went wrong with a terminating overlapping call
+	// 1. the early terminating calls start first and park in the host
+	for i, rel := range ov.Early {
+		go sideCall(fmt.Sprintf("early terminating call %d (%s context)", i, rel), "wait", related(rel), earlyCh)
+	}
+	for range ov.Early {
+		select {
+		case <-ev.parked:
+		case <-time.After(watchdogTime):
+			res.Msg = "harness: an early overlapping call did not reach the host function"
+			close(ev.release)
+			return
+		}
+	}
+	// 2. the non-terminating calls start (the main one below, on this goroutine)
+	if ov.Twin != "" {
+		go sideCall("second non-terminating call ("+ov.Twin+" context)", "go", related(ov.Twin), twinCh)
+	}
+	// 3. once they are in flight: the early calls return, the late calls are made, then the
+	// trigger is armed
+	go func() {
+		select {
+		case <-ev.started:
+		case <-finished:
+			close(ev.release)
+			return
+		}
+		close(ev.release)
+		fail := func(r sideResult, want uint64) {
+			if r.err != nil || len(r.res) != 1 || r.res[0] != want {
+				overlapMsg.Store(fmt.Sprintf("%s, finished before anything was triggered, returned (%v, %v), expected %d", r.what, r.res, r.err, want))
+			}
+		}
+		for range ov.Early {
+			fail(<-earlyCh, waitResult)
+		}
+		for i, rel := range ov.Late {
+			ch := make(chan sideResult, 1)
+			sideCall(fmt.Sprintf("late terminating call %d (%s context)", i, rel), "nop", related(rel), ch)
+			fail(<-ch, nopResult)
+		}
+		close(armed)
+	}()
+
 	var results []uint64
 	var callErr error
 	var escaped any
@@ -276,9 +396,23 @@ func runCase(c *Case) (res Result) {
 		}
 	}()
 	returned := time.Now()
+	var twin *sideResult
+	if ov.Twin != "" {
+		// every in-flight call must come back, not only the one on this goroutine (the watchdog
+		// ends the process if it does not)
+		r := <-twinCh
+		twin = &r
+		if r.at.After(returned) {
+			returned = r.at
+		}
+	}
 	close(finished)
 	<-triggerDone
 	res.Heartbeat = ev.hbTime.Load() != 0
+	if m, _ := overlapMsg.Load().(string); m != "" {
+		res.Msg = m
+		return
+	}
 
 	if escaped != nil {
 		res.Msg = fmt.Sprintf("a panic escaped the call: %v", escaped)
@@ -340,6 +474,13 @@ func runCase(c *Case) (res Result) {
 	}
 	want := c.wantCode()
 	class := s.class()
+	if twin != nil {
+		to := wz.Classify(twin.err)
+		if !(to.Kind == wz.KExit && to.Exit == want) && !(to.Kind == wz.KStack && class == "exit-or-overflow") {
+			res.Msg = fmt.Sprintf("the %s returned %s (%q), expected sys.ExitError with code %#x for cause %s", twin.what, to, firstLine(twin.err), want, c.Cause)
+			return
+		}
+	}
 	switch {
 	case out.Kind == wz.KExit && out.Exit == want:
 	case out.Kind == wz.KStack && class == "exit-or-overflow":
@@ -475,6 +616,21 @@ func genCase(t *rapid.T) *Case {
 	if c.Cause == "done-cancel" || c.Cause == "done-deadline" {
 		c.DelayUs = 0
 	}
+	startEntry := c.Shape.Entry == "start" || c.Shape.Entry == "_start"
+	if (c.Cause == "cancel" || c.Cause == "close" || c.Cause == "close-code") && !startEntry && rapid.IntRange(0, 2).Draw(t, "overlap") == 0 {
+		// other calls on the same instance overlap with the non-terminating one
+		rel := rapid.SampledFrom([]string{"same", "same", "value", "child"})
+		ov := &Overlap{
+			Early: rapid.SliceOfN(rel, 0, 2).Draw(t, "early-calls"),
+			Late:  rapid.SliceOfN(rel, 0, 2).Draw(t, "late-calls"),
+		}
+		if rapid.IntRange(0, 2).Draw(t, "twin") == 0 {
+			ov.Twin = rel.Draw(t, "twin-ctx")
+		}
+		if len(ov.Early)+len(ov.Late) > 0 || ov.Twin != "" {
+			c.Overlap = ov
+		}
+	}
 	return c
 }
 
@@ -520,6 +676,18 @@ func labelsOf(c *Case, r Result) []string {
 			l = append(l, "calls:recursion-with-inner-loop")
 		}
 		l = append(l, fmt.Sprintf("calls:cycle-length:%d", len(s.Edges)))
+	}
+	if ov := c.Overlap; ov != nil {
+		l = append(l, "overlapping-calls")
+		if len(ov.Early) > 0 {
+			l = append(l, "overlap:terminating-call-started-first-returns-before-trigger")
+		}
+		if len(ov.Late) > 0 {
+			l = append(l, "overlap:terminating-call-inside-the-flight")
+		}
+		if ov.Twin != "" {
+			l = append(l, "overlap:two-non-terminating-calls")
+		}
 	}
 	if s.SleepMs > 0 {
 		l = append(l, "slow-round:"+s.SleepVia, "slow-round:"+s.Kind+":"+c.Engine)
